@@ -29,6 +29,7 @@ def replay_luhn(digits, what, pos=None, x=None, swap=None, xbase=48):
             return False
     if what == 'valid':
         return not accepted(good), '%s %s' % (good, 'validates' if accepted(good) else 'does not validate'), 'C15/valid'
+    accepted(good)          # the valid number first, as the symbolic run does
     cells = list(good)
     if what == 'subst':
         cells[pos] = chr(xbase + x)
